@@ -116,4 +116,9 @@ def cases(tier, seed):
                 if lp in lens and lk in lens and 2 <= lp + lk <= 4 and (key.startswith('hand_') or tier != 'quick'):
                     cs.append(('check', {'schema': key, 'text': text, 'pshape': [1] * lp, 'kshape': [1] * lk,
                                          'twice': True}, {'weight': 1 + (lp + lk) ** 4}))
+        # a name that consists of one component of symbolic type only (a lone implicit digest stands for the empty name)
+        for l in sorted(set(lens + [0, 1])):
+            cs.append(('check', {'schema': key, 'text': text, 'pshape': ['t'], 'kshape': [1] * l}, {'weight': 2}))
+            cs.append(('check', {'schema': key, 'text': text, 'pshape': [1] * l, 'kshape': ['t']}, {'weight': 2}))
+        cs.append(('check', {'schema': key, 'text': text, 'pshape': ['t'], 'kshape': ['t']}, {'weight': 2}))
     return cs
